@@ -75,8 +75,30 @@ def smodels_text(rng):
     if rng.random() < 0.5: toks = c07.mutate(rng, toks)
     return c07.render(rng, toks, rng.random() < 0.3)
 
+def theory_cyclic(rng):
+    """aspif text whose theory term table is cyclic (a term that contains itself directly or through other terms, also through the
+    function position and inside operators) or nested very deeply, used by a theory atom: arbitrary input may say that (D17)"""
+    n = rng.choice([1, 2, 3, 5]); L = [b"asp 1 0 0"]
+    if rng.random() < 0.15:
+        n = rng.choice([30, 300]); L.append(b"9 0 0 7")
+        for i in range(1, n + 1): L.append(b"9 2 %d %d 1 %d" % (i, rng.choice([-1, -2, -3]), i - 1))
+        L.append(b"9 5 0 %d 0" % n)
+    else:
+        op = n + 1
+        L.append(b"9 1 %d 1 %s" % (op, rng.choice([b"f", b"+", b"-", b"*"])))
+        for i in range(n):
+            nxt = (i + 1) % n if rng.random() < 0.8 else rng.randrange(n)
+            if rng.random() < 0.5: L.append(b"9 2 %d %d 1 %d" % (i, rng.choice([-1, -2, -3]), nxt))
+            else: L.append(b"9 2 %d %d %s" % (i, op, b"1 %d" % nxt if rng.random() < 0.5 else b"2 %d %d" % (nxt, rng.randrange(n))))
+        k = rng.random()
+        if k < 0.4: L.append(b"9 5 0 0 0")
+        elif k < 0.7: L += [b"9 4 0 1 %d 0" % rng.randrange(n), b"9 5 0 %d 1 0" % op]
+        else: L += [b"9 1 %d 2 <=" % (op + 1), b"9 6 0 %d 0 %d %d" % (op, op + 1, rng.randrange(n))]
+    return b"\n".join(L + [b"0", b""])
+
 def gen_input(rng):
     k = rng.random()
+    if k < 0.03: return theory_cyclic(rng)
     if 0.5 <= k < 0.62: return smodels_text(rng)
     if k < 0.1: return bytes(rng.randrange(256) for _ in range(rng.choice([0, 1, 2, 5, 20, 60])))
     if k < 0.2: return progs.fuzz_symtab(rng, rng.random() < 0.3)
@@ -87,7 +109,11 @@ def gen_input(rng):
     return rng.choice(ASPIF + SMODELS) if rng.random() < 0.5 else valid_texts(rng)
 
 def corpus(ctx):
-    return [{"text": t.hex()} for t in ASPIF + SMODELS + [b"", b"\x00", b"a", b"asp", b"asp 1 0 0\n4 4294967295 x", b"1 0 1 1 1 1 0\n", b"3 _heuristic(a,true,-2147483648)\n", b"1 2 0 0\n0\n1 pppppppppp\",b)\n2 _edge(\"a\\\n0\nB+\n0\nB-\n0\n1\n",
+    import random
+    r = random.Random(17)
+    cyc = [b"asp 1 0 0\n9 2 0 -1 1 0\n9 5 0 0 0\n0\n", b"asp 1 0 0\n9 1 2 1 +\n9 2 0 2 2 1 1\n9 2 1 2 1 0\n9 4 0 1 0 0\n9 5 0 2 1 0\n0\n"] + [theory_cyclic(r) for _ in range(6)]
+    # D17: every output mode of lpconvert for these (the text writer is the one that walks the term table)
+    return [{"text": t.hex(), "all_flags": 1} for t in cyc] + [{"text": t.hex()} for t in ASPIF + SMODELS + [b"", b"\x00", b"a", b"asp", b"asp 1 0 0\n4 4294967295 x", b"1 0 1 1 1 1 0\n", b"3 _heuristic(a,true,-2147483648)\n", b"1 2 0 0\n0\n1 pppppppppp\",b)\n2 _edge(\"a\\\n0\nB+\n0\nB-\n0\n1\n",
             b"asp 1 0 0\n1 0 1 1 1 2147483647 1 2 2147483647\n0\n", b"x_2147483648.", b"#minimize{a=2147483648}.", b"asp 1 0 0\n4 99999999999999999999 a 0\n0\n"]]
 
 def generate(ctx):
@@ -186,9 +212,13 @@ def evaluate(ctx, cases):
     nlp = {"quick": 160, "thorough": 1500}[ctx.tier]
     flagsets = [[], ["-p"], ["-f"], ["-t"], ["-p", "-f"], ["-p", "-t"], ["-f", "-t"], ["-p", "-f", "-t"]]
     jobs = []
-    for k, c in enumerate(cases[:nlp]):
+    cyclic_later = [c for c in cases[nlp:] if bytes.fromhex(c["text"]).startswith(b"asp 1 0 0\n9 ")][:40]    # generated cyclic/deep term tables always go to lpconvert --text
+    # a term nested deeper than any stack allows (only through lpconvert: 200 kB of text would dominate the reader correspondence)
+    deep = b"\n".join([b"asp 1 0 0", b"9 0 0 7"] + [b"9 2 %d -1 1 %d" % (i, i - 1) for i in range(1, 60001)] + [b"9 5 0 60000 0", b"0", b""])
+    for k, c in enumerate(cases[:nlp] + [dict(c, flags_t=1) for c in cyclic_later] + ([{"text": deep.hex(), "flags_t": 1}] if len(cases) > 1 else [])):
         # quick: two of the eight flag sets and one buffer size per input, rotating (a sanitizer process start + leak check costs ~0.1 s); thorough: all 16 combinations
-        fsets = flagsets if ctx.tier == "thorough" else [flagsets[k % 8], flagsets[(k // 8 + k + 3) % 8]]
+        fsets = flagsets if ctx.tier == "thorough" or c.get("all_flags") else [flagsets[k % 8], flagsets[(k // 8 + k + 3) % 8]]
+        if c.get("flags_t"): fsets = [["-t"], ["-p", "-f", "-t"]]
         for fl in fsets:
             for B in ((16, 4096) if ctx.tier == "thorough" else ((16,) if k % 2 else (4096,))): jobs.append((c, fl, B))
     import json, os, sys
@@ -215,6 +245,6 @@ def shrink_candidates(c):
     res = []
     step = max(1, len(t) // 24)
     for i in range(0, len(t), step): res.append(dict(c, text=(t[:i] + t[i + step:]).hex()))
-    if step > 1:
+    if 1 < step and len(t) <= 4000:          # single bytes only for small texts (a candidate per byte of a megabyte input is terabytes)
         for i in range(len(t)): res.append(dict(c, text=(t[:i] + t[i + 1:]).hex()))
     return res
